@@ -7,10 +7,12 @@ serialised (schema validated) by the consumer's message factory, parsed by the p
 dispatched by the real hosted service (`hosting_service.on_post` -> `_on_get_md_state` …), the answer is
 serialised by the provider's factory and parsed by the consumer's reader.
 
-Part 2 – tracing (C07): `TracedRLock` replaces `mdib.mdib_lock`; `install_tracing` switches the MDIB object to a
-traced subclass whose `__getattribute__` reports reads of the shared attributes, and wraps the three tables so that
-reads of `objects` and of the indices (`get`, `get_one`, `[]`, `in`) are reported. Every report carries "does the
-current thread hold mdib_lock". A hook (`Tracer.on_event`) may block – that is how schedules are forced.
+Part 2 – tracing (C07): `install_tracing(mdib)` replaces `mdib.mdib_lock` / `mdib._tr_lock` by `TracedLock`s, switches the
+MDIB object and its three tables to traced subclasses (reads / writes of the version members, `objects`, index access
+`get` / `get_one` / `[]` / `in`, table mutators) and patches `ContainerBase.update_node` (serialisation = read of object
+content) and the in-place update methods of descriptor containers at class level. Every event carries "does the
+current thread hold mdib_lock". `Tracer.on_event` runs in the acting thread and may block – that is how schedules are
+forced. `to_actions` turns an event list into the action list of the Lean model (`Sdc.LockLts.Act`).
 """
 from __future__ import annotations
 
